@@ -6,6 +6,10 @@ Proof: theories/C11 — character-level mirror of lrlex's LexParser (+ the heade
 `unescape_iw_spec` (what is special to the regex engine follows ignore_whitespace: an escaped white-space
 character stays escaped, `\\c` or `\\x{..}`) for the variant with the white-space repair, `unescape_iw_refuted` /
 `lex_iw_refuted` for the code without it, `iw_off_irrelevant` (flag off: the repair is invisible).
+`esc_table_spec` (the kept escapes are exactly the ones the regex engine gives a meaning: hexadecimal — fixed width or braced —,
+digits, C escapes, classes, \\A \\z \\B), `declared_names_spec` (the names of a declaration are the maximal runs of non-white-space),
+`trim_end_keeps` / `trim_end_split` (only spaces and tabs are trimmed from the end of a regex), with `esc_table_orig_refuted`,
+`lex_esc_refuted`, `decl_blanks_refuted`, `trim_orig_refuted`, `lex_trim_refuted` for the code before those three repairs.
 Oracle (independent of the mirror): abstract lexer specs are rendered to text in many layouts; the
 implementation must report exactly the abstract rules (order, names, start states, targets, kinds),
 spans that select the names in the text the user wrote, regexes equivalent (regex crate, battery of
@@ -29,6 +33,18 @@ DANGLING_FIXED = True   # parser.rs:616 trailing copy when the scan ends on a lo
 IW_ESCAPE_FIXED = True
 if os.environ.get("GV_C11_IW_FIXED") in ("0", "1"):
     IW_ESCAPE_FIXED = os.environ["GV_C11_IW_FIXED"] == "1"
+# the five repairs after the audit of the unchanged code (/repo 1205854 20c9d3b 326ccca c002878 0905507).  The first three
+# select the variant of the mirror the correspondence expects; all five decide whether a deviation of that class is still
+# accepted as a known finding (False) or alarms (True).  GV_C11_AUDIT_FIXED=<5 digits> evaluates the check against a tree
+# without some of them.
+ESC_TABLE_FIXED = True     # parser.rs RE_LEX_ESC_LITERAL keeps \B and braced \x{ \u{ \U{ (K_ESC)
+DECL_BLANKS_FIXED = True   # parser.rs declare_start_states: several blanks between names (K_BLANKS)
+TRIM_BLANK_FIXED = True    # parser.rs trim_end_unescaped trims space and tab only (K_TRIM)
+NUM_FLAGS_FIXED = True     # lexer.rs LexFlags::try_from: numeric flags out of range are refused, not wrapped (K_NUM)
+PAREN_FIXED = True         # lexer.rs Rule::new: the written regex must be a regex on its own (K_PAREN)
+if re.fullmatch("[01]{5}", os.environ.get("GV_C11_AUDIT_FIXED", "")):
+    ESC_TABLE_FIXED, DECL_BLANKS_FIXED, TRIM_BLANK_FIXED, NUM_FLAGS_FIXED, PAREN_FIXED = (
+        c == "1" for c in os.environ["GV_C11_AUDIT_FIXED"])
 
 K_SPANS = "spans of a lex spec with a %grmtools header are relative to the text after the header"
 K_PREFIX = "lex escapes are not rewritten in a rule that has a start-state prefix"
@@ -36,7 +52,11 @@ K_DANGLING = "unescape drops the end of a regex that ends in a lone backslash"
 K_TARGET = "name_span of a rule with a target state is computed as if the name followed the space directly"
 K_BLANKS = "two blanks between start-state names in a declaration are rejected"
 K_IW = "with ignore_whitespace on, the backslash before a white-space character is dropped and the regex engine then skips the character"
-KNOWN_KEYS = [K_SPANS, K_PREFIX, K_DANGLING, K_TARGET, K_BLANKS, K_IW]
+K_ESC = "the lex escapes \\B and braced \\x{..} \\u{..} \\U{..} lose their backslash"
+K_TRIM = "a regex ending in a form feed, NEL, LRM or RLM character loses it"
+K_NUM = "a numeric lex flag above its type's range wraps around"
+K_PAREN = "a lex rule whose regex has an unbalanced parenthesis is accepted and lexes text it does not match"
+KNOWN_KEYS = [K_SPANS, K_PREFIX, K_DANGLING, K_TARGET, K_BLANKS, K_IW, K_ESC, K_TRIM, K_NUM, K_PAREN]
 
 
 def hx(s):
@@ -118,7 +138,21 @@ def battery(rng, exp):
 
 # ------------------------------------------------------------------ part A: oracle on the implementation
 def fx_string():
-    return "".join("1" if b else "0" for b in (SPANS_FIXED, TARGET_FIXED, PREFIX_FIXED, DANGLING_FIXED, IW_ESCAPE_FIXED))
+    return "".join("1" if b else "0" for b in (SPANS_FIXED, TARGET_FIXED, PREFIX_FIXED, DANGLING_FIXED, IW_ESCAPE_FIXED,
+                                                ESC_TABLE_FIXED, DECL_BLANKS_FIXED, TRIM_BLANK_FIXED))
+
+
+def audit_class(rec, rule=None):
+    """known key of a deviation on this case (on this rule) that falls in the class of one of the repairs that is NOT yet in
+    the tree (all None once the five flags are True)"""
+    rules = rec["exp"]["rules"] if rule is None else [rule]
+    if not ESC_TABLE_FIXED and any(G.has_new_escape(r["written"]) for r in rules):
+        return K_ESC
+    if not TRIM_BLANK_FIXED and any(G.ends_in_trail_ws(r["written"]) for r in rules):
+        return K_TRIM
+    if not DECL_BLANKS_FIXED and rule is None and rec["exp"].get("multi_blank"):
+        return K_BLANKS
+    return None
 
 
 def iw_class(rec, rule=None):
@@ -145,16 +179,22 @@ def lex_inputs(exp):
         for t in (s, "".join(c for c in s if c not in G.RX_WS_ALL), s + s):
             if t and "\x00" not in t and t not in out:
                 out.append(t)
-    return out[:8] or None
+    out = out[:8]
+    # text no rule matches in front of text a rule matches: no lexeme may cover it (ANCH section)
+    for t in out[:2]:
+        out.append("\x01\x02" + t)
+    return out or None
 
 
 def needs_rewrite(rule):
     return rule["written"] != rule["meant"] or "\\b" in rule["written"]
 
 
-def case_line(text, flags, route, exp, bat, inputs=None):
+def case_line(text, flags, route, exp, bat, inputs=None, lim=False):
     line = "src=%s f=%s w=%s wn=%s" % (hx(text), G.flag_str(flags), hlist([r["meant"] for r in exp["rules"]]),
                                       ";".join("1" if r["name"] is not None else "0" for r in exp["rules"]))
+    if lim:
+        line += " lim=1"
     if bat:
         line += " b=%s" % hlist(bat)
     if inputs:
@@ -259,6 +299,148 @@ def iw_cases():
     return out
 
 
+def audit_cases():
+    """the inputs of the audit of the unchanged code (C11 audit 1, 2, 3, 7) and their neighbourhood, on every run:
+    \\B and braced hexadecimal escapes in and outside classes; start-state declarations whose names are separated by several
+    blanks / tabs / other in-line white space; regexes ending in FF, NEL, LRM, RLM (bare and escaped) — each plain, behind a
+    <A> prefix, with posix_escapes / ignore_whitespace, through from_str and new_with_options"""
+    I = ("INITIAL", False)
+
+    def rule(name, written, meant=None, pre=(), has_prefix=False):
+        return {"name": name, "pre": list(pre), "target": None, "written": written, "meant": written if meant is None else meant,
+                "has_prefix": has_prefix, "iw_esc": G.has_escaped_ws(written)}
+    shapes = []          # (tag, declarations, rules, states, inputs, multi_blank)
+    esc = [("a\\Bb", ["ab", "aBb", "a b"]), ("\\Ba", ["a", "Ba", "ba"]), ("\\x{41}", ["A", "x" * 41, "x{41}"]), ("\\x{2}", ["\x02", "xx"]),
+           ("\\u{e9}", ["é", "u"]), ("\\U{1F600}", ["😀", "U"]), ("[\\x{41}-\\x{43}]+", ["ABC", "x", "AxB"]), ("[^\\u{e9}]", ["a", "é"]),
+           ("[\\U{1F600}a]+", ["a😀", "U"]), ("\\x{41}\\Bb\\u{e9}", ["Abé"]), ("q\\x{7a}+", ["qzz", "qx"])]
+    for w, inputs in esc:
+        shapes.append(("escape/" + w, "", [rule("T", w), rule("U", "[a-zA-Z]", "[a-zA-Z]")], [I], inputs, False))
+        shapes.append(("escape-prefix/" + w, "%s A\n", [rule("T", w, pre=[1], has_prefix=True), rule("U", "y")], [I, ("A", False)], None, False))
+    for c in G.TRAIL_WS:
+        tag = "U+%04X" % ord(c)
+        L = G.lit(c)
+        shapes.append(("trailing/" + tag, "", [rule("T", "a" + c), rule("U", "a")], [I], ["a" + c, "a", "aa" + c], False))
+        shapes.append(("trailing-escaped/" + tag, "", [rule("T", "a\\" + c, "a" + L), rule("U", "a")], [I], ["a" + c, "a"], False))
+        shapes.append(("trailing-class/" + tag, "", [rule("T", "[x" + c + "]+" + c), rule("U", "x")], [I], ["x" + c + c, "x"], False))
+        shapes.append(("trailing-inner-blank/" + tag, "", [rule("T", "a" + c + " " + c), rule("U", "a")], [I], ["a" + c + " " + c, "a" + c], False))
+        shapes.append(("trailing-prefix/" + tag, "%x A\n", [rule("T", "b" + c, pre=[1], has_prefix=True), rule("U", "b")], [I, ("A", True)], None, False))
+    decls = [("%s A  B\n", [("A", False), ("B", False)]), ("%x C \t D\n", [("C", True), ("D", True)]),
+             ("%s A\t\tB   Cc\n", [("A", False), ("B", False), ("Cc", False)]), ("%X    k9\t \tX.y  \n", [("k9", True), ("X.y", True)]),
+             ("%s A\x0c\x0cB\n%x  C\x85 D\u200e\u200fE\n", [("A", False), ("B", False), ("C", True), ("D", True), ("E", True)]),
+             ("%start  s_1   Str\t\n", [("s_1", False), ("Str", False)])]
+    for d, sts in decls:
+        ids = list(range(1, len(sts) + 1))
+        shapes.append(("decl/" + d.strip(), d, [rule("T", "a", pre=ids, has_prefix=True), rule("U", "b")], [I] + sts, None, True))
+    out = []
+    for tag, decl, rules, states, inputs, mb in shapes:
+        names = [n for n, _ in states]
+        body = decl + "%%\n" + "".join("%s%s %s'%s'\n" % (("<" + ",".join(names[i] for i in r["pre"]) + ">") if r["pre"] else "", r["written"],
+                                                         "\t" if k else "", r["name"]) for k, r in enumerate(rules))
+        exp = {"rules": rules, "states": states, "multi_blank": mb}
+        bat = sorted(set(["", "a", "ab", "b", "x", "y", "A", "B", "aBb", "é", "u", "\x0c", "\x85", "xx"] + (inputs or [])))
+        variants = [({}, "str", None), ({"pe": True}, "str", "%grmtools{posix_escapes}\n"), ({"iw": True}, "opt", None),
+                    ({"iw": False}, "str", "%grmtools{!ignore_whitespace}\n")]
+        for flags, route, hdr in variants:
+            text = (hdr or "") + body
+            out.append({"text": text, "exp": exp, "flags": flags, "route": route, "has_header": bool(hdr), "audit": tag,
+                        "line": case_line(text, flags, route, exp, bat, inputs)})
+    return out
+
+
+NUM_KEYS = [("nest_limit", "nest", 2 ** 32 - 1), ("size_limit", "size", None), ("dfa_size_limit", "dfa", None)]
+NUM_VALUES = [2 ** 32 - 1, 2 ** 32, 2 ** 32 + 1, 2 ** 32 + 2, 2 ** 33, 2 ** 64 - 1]
+
+
+def num_cases():
+    """numeric flags of the %grmtools section at the edges of their types (C11 audit 4): the value in force is the value
+    written, or the section is refused with an error located at the setting; never another value"""
+    out = []
+    for key, short, _ in NUM_KEYS:
+        for v in NUM_VALUES:
+            for spelling in (key, key.upper()):
+                text = "%%grmtools{%s: %d}\n%%%%\n((a)|b) 'T'\n" % (spelling, v)
+                out.append({"text": text, "key": key, "short": short, "value": v, "line": "src=%s lim=1 in=%s" % (hx(text), hlist(["ab", "xyb"]))})
+    return out
+
+
+def judge_num(rec, out):
+    """deviations of a numeric-flag case: list of (class, known_key, detail)"""
+    sec = sections(out)
+    text, v, key = rec["text"], rec["value"], rec["key"]
+    src_b = text.encode("utf-8")
+    devs = []
+    known = None if NUM_FLAGS_FIXED else K_NUM
+    lim = sec.get("LIM", "LIM ?").split()
+    located = lambda s, e: (bsel(src_b, s, e) or "").lower() in (key, str(v), "%s: %d" % (key, v))
+    if lim[1:2] == ["E"]:
+        spans = [(int(lim[i]), int(lim[i + 1])) for i in range(3, len(lim) - 1, 2)]
+        if v < 2 ** 32:
+            devs.append(("a numeric flag that fits every integer type is refused", None, {"flag": key, "value": v, "harness": sec.get("LIM")}))
+        elif not spans or not all(located(s, e) for s, e in spans):
+            devs.append(("the conversion error of a numeric flag out of range is not located at the setting", None,
+                         {"flag": key, "value": v, "spans": spans, "selected": [bsel(src_b, s, e) for s, e in spans]}))
+        # ... and from_str reports it: one Header error whose span indexes the setting
+        errs = parse_errs(sec["ERRS"]) if "ERRS" in sec else None
+        if not errs or [e[0] for e in errs] != ["Header"] or not all(located(s, e) for s, e in errs[0][1]) or not errs[0][1]:
+            devs.append(("from_str does not report the refused numeric flag as one located Header error", None,
+                         {"flag": key, "value": v, "impl": (sec.get("ERRS") or sec.get("OK") or out)[:300]}))
+        return devs
+    if lim[1:2] and ":" in lim[1]:
+        inforce = dict(x.split(":") for x in lim[1:])
+        got = inforce.get(rec["short"])
+        if got != str(v):
+            devs.append(("the numeric flag in force is not the one written in the %grmtools section", known if v >= 2 ** 32 else None,
+                         {"flag": key, "written": v, "in_force": got}))
+        others = {k: x for k, x in inforce.items() if k != rec["short"] and x != "-"}
+        if others:
+            devs.append(("a numeric flag that was not written is in force", None, {"flag": key, "others": others}))
+        # a limit this large cannot be what rejects `((a)|b)`: the definition must build and lex
+        if "OK" not in sec:
+            devs.append(("valid specification rejected: the numeric flag in force is not the large one written", known if v >= 2 ** 32 else None,
+                         {"flag": key, "written": v, "impl": (sec.get("ERRS") or sec.get("PANIC") or out)[:300]}))
+        elif sec.get("LX", "").split()[1:] != ["x6162=0:0:1,0:1:1", "x787962=E0"]:
+            devs.append(("lexing with a large numeric limit differs from lexing without", None, {"flag": key, "impl": sec.get("LX")}))
+        return devs
+    devs.append(("the %grmtools section with a numeric flag was not understood", None, {"flag": key, "value": v, "harness": out[:300]}))
+    return devs
+
+
+# regexes that are not regexes on their own (unbalanced parentheses): spliced into `\A(?:..)` some of them give a well-formed
+# text with an UNANCHORED alternative (C11 audit 6 (1))
+PAREN_REGEXES = ["a)|(b", ")", "(a))|((b", "a)", "(a", "a)(b", ")|(", "x)|(y)|(z", "[a-c])|([x-z]", "a))|((b", "\\x{41})|(b", "a)|(b\x0c"]
+
+
+def paren_cases():
+    out = []
+    for w in PAREN_REGEXES:
+        for decl, pre in (("", ""), ("%s A\n", "<A>")):
+            for hdr, opt in (("", None), ("%grmtools{ignore_whitespace}\n", None), ("", "iw:0,pe:1")):
+                text = hdr + decl + "%%\n" + pre + w + " 'T'\nq 'Q'\n"
+                inputs = ["xyb", "b", "ab", "a", "xy", "qb", "q"]
+                line = "src=%s in=%s" % (hx(text), hlist(inputs)) + ("" if opt is None else " opt=%s f=%s" % (opt, opt)) + \
+                       ("" if not hdr else " f=iw:1")
+                out.append({"text": text, "written": w, "line": line, "offset": len((hdr + decl + "%%\n").encode("utf-8"))})
+    return out
+
+
+def judge_paren(rec, out):
+    sec = sections(out)
+    devs = []
+    known = None if PAREN_FIXED else K_PAREN
+    if "ERRS" in sec:
+        errs = parse_errs(sec["ERRS"])
+        if [e[0] for e in errs] != ["RegexError"] or errs[0][1] != [(rec["offset"], rec["offset"])]:
+            devs.append(("a rule whose regex has an unbalanced parenthesis is not reported as one RegexError at its line", None,
+                         {"written_regex": rec["written"], "impl": sec["ERRS"][:300], "expected_offset": rec["offset"]}))
+        return devs
+    devs.append(("a rule whose regex is not a regular expression (unbalanced parenthesis) is accepted", known,
+                 {"written_regex": rec["written"], "impl": (sec.get("OK") or out)[:300]}))
+    if sec.get("ANCH", "ANCH ok") != "ANCH ok":
+        devs.append(("a lexeme covers text that no rule matches at the lexeme's start", known,
+                     {"written_regex": rec["written"], "lexemes (input:tok:start:len)": sec["ANCH"], "lexing": sec.get("LX")}))
+    return devs
+
+
 def judge_oracle(rec, out):
     """compare the implementation's observations with the abstract spec.
     returns the list of deviations (class, known_key, detail); empty = conforms"""
@@ -283,6 +465,10 @@ def judge_oracle(rec, out):
                 key = K_PREFIX
             elif iw_class(rec) and len(errs) == 1 and errs[0][0] == "RegexError":
                 key = K_IW          # e.g. `[\ ]` rewritten to `[ ]`: an empty, hence unclosed, class in that mode
+            elif len(errs) == 1 and errs[0][0] == "RegexError" and audit_class(rec) in (K_ESC, K_TRIM):
+                key = audit_class(rec)   # e.g. `\u{e9}` rewritten to `u{e9}`: not a repetition
+            elif len(errs) == 1 and errs[0][0] == "InvalidStartStateName" and audit_class(rec) == K_BLANKS:
+                key = K_BLANKS
         devs.append(("valid specification rejected", key, what))
         return devs
     # flags written in the %grmtools section are the ones in force (route from_str: LexFlags::try_from of the parsed header)
@@ -331,6 +517,8 @@ def judge_oracle(rec, out):
         key = K_PREFIX if (er and er["has_prefix"] and needs_rewrite(er) and not PREFIX_FIXED) else None
         if key is None and er and iw_class(rec, er):
             key = K_IW
+        if key is None and er:
+            key = audit_class(rec, er)
         if f[1] == "WRITTENERR":
             rec["generator_invalid"] = True       # the generator produced a regex the regex crate rejects: no verdict
         elif f[1] == "IMPLERR":
@@ -343,8 +531,12 @@ def judge_oracle(rec, out):
                           "impl_match_end": f[4] if len(f) > 4 else None, "written_match_end": f[5] if len(f) > 5 else None}))
     # flags in force: lexing vs the reference lexer
     if "LX" in sec and "RL" in sec and sec["LX"][3:] != sec["RL"][3:]:
-        key = K_PREFIX if prefix_rw else (K_IW if iw_class(rec) else None)
+        key = K_PREFIX if prefix_rw else (K_IW if iw_class(rec) else audit_class(rec))
         devs.append(("lexing differs from the reference lexer under the flags in force", key, {"impl": sec["LX"], "reference": sec["RL"]}))
+    # every emitted lexeme is text its rule's regex matches AT the lexeme's start (the regex compiled on its own)
+    if sec.get("ANCH", "ANCH ok") != "ANCH ok" and not rec.get("generator_invalid"):
+        devs.append(("a lexeme covers text that its rule's regex does not match at the lexeme's start", None,
+                     {"lexemes (input:tok:start:len)": sec["ANCH"], "lexing": sec.get("LX")}))
     return devs
 
 
@@ -447,6 +639,7 @@ def run(ctx):
 
     # ---------------- A: oracle (abstract spec -> text -> implementation), corpus first
     recs = corpus_cases()
+    recs += audit_cases()
     for i in range(ctx.n(8000, 60000)):
         recs.append(oracle_case(rng, "str" if i % 3 else "opt"))
     probes = flag_probe_cases()
@@ -507,10 +700,22 @@ def run(ctx):
                            "replay_cmd": "echo '%s' | .work/target/release/c11" % d["line"]},
                           known_key=None if DANGLING_FIXED else K_DANGLING)
 
-    # ---------------- observations that are not verdicts (coordinator: the property text does not clearly demand them)
-    obs = [("%x A  B\n%%\na 'T'\n", "two blanks between start-state names"), ("%%\n\\B 'T'\n", "\\B (documented as supported) is rewritten to B")]
-    oouts = core.run_lines([exe], ["src=%s" % hx(t) for t, _ in obs])
-    ctx.coverage["observations_not_alarmed"] = [{"text": t, "what": w, "impl": o[:200]} for (t, w), o in zip(obs, oouts)]
+    # ---------------- A'': numeric flags at the edges of their types; regexes that are not regexes on their own
+    nums, parens = num_cases(), paren_cases()
+    nouts = core.run_lines([exe], [r["line"] for r in nums + parens], env=FAST_WATCHDOG)
+    nbad = 0
+    for rec, out in zip(nums + parens, nouts):
+        devs = judge_num(rec, out) if "value" in rec else judge_paren(rec, out)
+        ctx.case(("N " if "value" in rec else "P ") + rec["line"], True, {"text": rec["text"], "impl": out[:300]})
+        ctx.count("numeric_flag_" + ("in_force" if " | LIM nest" in out else "refused") if "value" in rec else
+                  "unbalanced_regex_" + ("rejected" if " | ERRS" in out else "accepted"))
+        nbad += len([d for d in devs if d[1] is None])
+        for cls, key, detail in devs:
+            ctx.count("deviation: " + (key or cls))
+            ctx.violation({"what": "numeric flags in force" if "value" in rec else "a rule's regex must be a regular expression on its own",
+                           "class": cls, "detail": detail, "source_text": rec["text"], "impl_output": out[:1500],
+                           "replay_cmd": "echo '%s' | .work/target/release/c11" % rec["line"]}, known_key=key)
+    ctx.oblige(nbad == 0, "numeric flags in force / unbalanced regexes rejected")
 
     # ---------------- B: implementation vs mirror on generated, mutated and truncated sources
     srcs = []          # (text, opt flags | None)
@@ -520,6 +725,8 @@ def run(ctx):
         for _ in range(ctx.n(3, 4)):
             srcs.append((mutate(rng, rec["text"]), opt))
     for d in dang:
+        srcs.append((d["text"], None))
+    for d in parens[::3]:
         srcs.append((d["text"], None))
     # every truncation of a few sources
     for rec in recs[5:5 + ctx.n(25, 120)]:
@@ -573,7 +780,8 @@ def run(ctx):
     ctx.coverage["rule"] = (
         "A: seeded random abstract lexer specs (0-3 start states incl. exclusive, 1-5 rules with names/skip forms, <A,B> prefixes, "
         "<S>/<+S>/<-S> targets, regex atoms: literals, multi-byte chars, lex escapes of non-special chars incl. multi-byte and space, regex "
-        "escapes, \\b, classes, bare and trailing-escaped spaces) x renderings (with/without %grmtools section with random flags, "
+        "escapes incl. \\B and braced \\x{..} \\u{..} \\U{..} in and outside classes, \\b, classes, bare and trailing-escaped spaces, "
+        "a bare or escaped FF/NEL/LRM/RLM as the last character; declarations with one or several blanks between names) x renderings (with/without %grmtools section with random flags, "
         "'n'/\"n\"/;/''/\"\" forms, blanks/tabs, LF/CRLF/VT/CR/U+2028 separators, // comments when allowed, closing %%) x route "
         "(from_str / new_with_options with a contradicting section); ignore_whitespace drawn like the other flags (and forced "
         "on in 15% of the cases) TOGETHER with escaped white space / \\# atoms (plain, in classes [\\ x] [^\\ ] [x\\ \\#], in groups, "
@@ -581,6 +789,12 @@ def run(ctx):
         "(inputs: what each rule is meant to match, with and without its white space) against the reference lexer; a "
         "deterministic family iw_cases: 20 skipped characters x {plain, class, trailing, behind a <A> prefix} + \\# x "
         "ignore_whitespace {on, off, unspecified} x {section, new_with_options, new_with_options with a contradicting section}; "
+        "a deterministic family audit_cases (the auditors' inputs and neighbours: 11 escape shapes, 4 trailing characters x 5 shapes, "
+        "6 multi-blank declarations, each x 4 flag/route variants); num_cases: nest_limit/size_limit/dfa_size_limit x {2^32-1, 2^32, "
+        "2^32+1, 2^32+2, 2^33, 2^64-1} x key spelling (value in force = value written, or one Header error located at the setting; the "
+        "definition builds and lexes); paren_cases: 12 regexes with unbalanced parentheses x {plain, <A> prefix} x 3 flag routes "
+        "(exactly one RegexError at the rule line); for every case with lexing inputs, incl. inputs that begin with text no rule "
+        "matches: every emitted lexeme is matched by its rule's regex — compiled on its own — at offset 0 of the remaining input (ANCH); "
         "judged against the abstract spec (rules, states, span texts, "
         "regex equivalence on a battery of ~90 strings per case, flag probes lexed against a reference lexer). "
         "B: the same texts plus 3 mutations each (char delete/insert/replace, truncation, duplicated/swapped/indented lines, "
@@ -596,6 +810,6 @@ def run(ctx):
         "the %grmtools section parser is not mirrored here (theories/C12): its end position and the flags it yields are inputs of the mirror, taken from the public GrmtoolsSectionParser/LexFlags::try_from",
         "Rule::new (regex compilation) is opaque to the mirror: which rule line fails to compile is an input of the mirror (taken from the implementation's RegexError); regex semantics are decided by the regex crate in the harness",
         "'what the written regex denotes' is the generator's own definition of lex escaping (gen/c11gen.py), compiled by the regex crate with the flags in force and compared on a finite battery",
-        "effective flags are observed through behaviour (lex_flags() is pub(crate)); size/nest limits are not probed",
+        "effective flags are observed through behaviour (lex_flags() is pub(crate)); the numeric limits are observed through the public LexFlags::try_from on the parsed section (the conversion from_str itself uses) and, for large values, through the definition building; small limits are not probed (the wrapper \\A(?:..) adds nesting of its own)",
         "StorageT::try_from(rules_len) (documented panic past u32::MAX rules) is not mirrored (C20)",
     ]
